@@ -143,4 +143,20 @@ PACKAGE_SCENARIOS: list = [
         },
         [[], ['-nc'], ['--docstyle', 'numpydoc']],
     ),
+    (
+        'init:same-name-reexported-twice',
+        {
+            'pk/__init__.py': "from pk.sub._a import Table as TableA\nfrom pk.sub._b import Table as TableB\nfrom pk.sub._a import load as load_a\nfrom pk.sub._b import load as load_b\nfrom pk.sub._c import Table, load\n__all__ = ['TableA', 'TableB', 'load_a', 'load_b', 'Table', 'load']\n",
+            'pk/sub/__init__.py': "",
+            'pk/sub/_a.py': "class Table:\n    def rows_a(self) -> int: ...\n\n\ndef load(path: str) -> Table: ...\n",
+            'pk/sub/_b.py': "class Table:\n    def rows_b(self) -> int: ...\n\n\ndef load(path: str, strict: bool = False) -> Table: ...\n",
+            'pk/sub/_c.py': "class Table:\n    def rows_c(self) -> int: ...\n\n\ndef load() -> Table: ...\n",
+            'pk/readers/__init__.py': "from ._csv import load\nfrom ._csv import Reader\n",
+            'pk/readers/_csv.py': "class Reader:\n    pass\n\n\ndef load(r: Reader) -> Reader: ...\n",
+            'pk/models/__init__.py': "from ._store import load\nfrom ._store import Reader\n",
+            'pk/models/_store.py': "class Reader:\n    pass\n\n\ndef load(r: Reader, n: int = 0) -> Reader: ...\n",
+            'pk/user.py': "from pk import TableA, TableB\nfrom pk.readers import Reader\n\n\ndef use(a: TableA, b: TableB, r: Reader) -> TableA: ...\n",
+        },
+        [[], ['-nc'], ['--docstyle', 'numpydoc']],
+    ),
 ]
